@@ -24,6 +24,10 @@ def mutate(rng, s):
     # explicit activation right after construction so that the sync twin lines up op for op
     # (the deferred-activation ordering difference without it is the recorded finding D19)
     s.ops = [s.ops[0], ("activate",)] + list(s.ops[1:])
+    if rng.random() < 0.12:
+        # the machine is replaced by a deep copy of itself before it was activated (an async machine must still
+        # activate, exactly once), or at some later point
+        s.ops.insert(1 if rng.random() < 0.6 else rng.randint(2, len(s.ops)), ("reconstruct", "copy"))
     if not s.is_async() and s.cbs:
         rng.choice([c for c in s.cbs if not c.alias_of and c.id not in {x.alias_of for x in s.cbs}] or s.cbs).coro = True
         c = [c for c in s.cbs if c.coro][0]
